@@ -25,95 +25,7 @@ func checkC10(c *Ctx) {
 	c.Rule("R10.4", "all cores, all sinks, all errors: exhaustive loops folding errors; aggregate reported; sink error returned", 9)
 	c.Rule("R10.5", "the logger's error output is threaded into every entry that will be written", 1)
 
-	// ---------------- R10.1 ----------------
-	n := 0
-	payloadFns := map[*ssa.Function]bool{}
-	c.EachRootFunc(func(fn *ssa.Function) {
-		if fn.Pkg == nil {
-			return
-		}
-		p := fn.Pkg.Pkg.Path()
-		if p != ZapPath && p != CorePath {
-			return
-		}
-		for _, cl := range Calls(fn) {
-			call, ok := cl.(*ssa.Call)
-			if !ok || !call.Call.IsInvoke() {
-				continue
-			}
-			m := call.Call.Method
-			full := m.FullName()
-			if full != "(fmt.Stringer).String" && full != "(error).Error" {
-				// type-parameter receivers constrained by fmt.Stringer
-				if !(m.Name() == "String" && strings.Contains(full, "Stringer")) {
-					continue
-				}
-			}
-			recv := call.Call.Value
-			d := Desc(recv)
-			// payload classification: errors returned by marshalers (locals named err from a call) are a separate, listed class
-			// a field payload reaches zap through a parameter (the value itself, an element of a slice
-			// parameter/receiver, a type assertion of an interface{} parameter); errors zap received
-			// from marshalers/sinks are call results
-			isPayload := c10IsPayload(recv, 0)
-			if !isPayload {
-				if p == CorePath || p == ZapPath {
-					c.Triv("R10.1", FuncKey(fn), "listed/"+m.Name()+"("+d+")", call.Pos(), "%s() on %s: an error zap itself received from a marshaler/sink or built (not a user field payload) - listed, not required to be under recover", m.Name(), d)
-				}
-				continue
-			}
-			n++
-			payloadFns[fn] = true
-			// deferred closure that directly calls recover()
-			rec := false
-			AllInstrs(fn, func(i ssa.Instruction) {
-				df, ok := i.(*ssa.Defer)
-				if !ok {
-					return
-				}
-				mk, ok := df.Call.Value.(*ssa.MakeClosure)
-				if !ok {
-					return
-				}
-				for _, c2 := range Calls(mk.Fn.(*ssa.Function)) {
-					if CallBuiltin(c2) == "recover" {
-						rec = Dominates(df, call)
-					}
-				}
-			})
-			c.Check(rec, "R10.1", FuncKey(fn), "recover/"+m.Name()+"("+d+")", call.Pos(), "the user's %s() runs after a defer whose closure calls recover() itself (recover in a helper called from the deferred function is one frame too deep and does nothing)", m.Name())
-		}
-	})
-	if n < 3 {
-		c.Bad("R10.1", "payload calls", "count", token.NoPos, "expected at least 3 String()/Error() calls on field payloads, found %d", n)
-	}
-	// the recover closures convert: nil pointer → "<nil>", otherwise retErr = PANIC=…
-	for _, fn := range c.RootFuncs() {
-		if !payloadFns[fn] {
-			continue
-		}
-		okNil, okErr := false, false
-		for _, f := range Region(fn) {
-			AllInstrs(f, func(i ssa.Instruction) {
-				switch x := i.(type) {
-				case *ssa.Call:
-					if x.Call.IsInvoke() && x.Call.Method.Name() == "AddString" && Desc(x.Call.Args[1]) == `"<nil>"` {
-						okNil = true
-					}
-					if f2 := CalleeFunc(x); f2 != nil && f2.FullName() == "fmt.Errorf" {
-						if s, ok := ConstString(x.Call.Args[0]); ok && strings.HasPrefix(s, "PANIC=") {
-							okErr = true
-						}
-					}
-				case *ssa.Store:
-					if Desc(x.Val) == `"<nil>"` {
-						okNil = true
-					}
-				}
-			})
-		}
-		c.Check(okNil && okErr, "R10.1", fn.String(), "converts-panic", fn.Pos(), "the recovered panic becomes \"<nil>\" for a nil pointer receiver and a PANIC=… error otherwise (nil=%v err=%v)", okNil, okErr)
-	}
+	c10Recover(c, "R10.1")
 
 	// ---------------- R10.2 ----------------
 	c1Errors(c, "R10.2")
@@ -121,67 +33,7 @@ func checkC10(c *Ctx) {
 	// ---------------- R10.3 ----------------
 	c1Pairing(c, "R10.3")
 	c1Namespace(c, "R10.3")
-	for _, m := range []string{"AddReflected", "AppendReflected"} {
-		fn := c.Method(CorePath, "jsonEncoder", m)
-		if !c.Anchor("R10.3", "zapcore.jsonEncoder."+m, fn != nil) {
-			continue
-		}
-		var enc ssa.Instruction
-		for _, cl := range Calls(fn) {
-			if f := CalleeFunc(cl); f != nil && f.Name() == "encodeReflected" {
-				enc = cl
-			}
-		}
-		if enc == nil {
-			c.Bad("R10.3", fn.String(), "encodes-first", fn.Pos(), "no encodeReflected call")
-			continue
-		}
-		var early []string
-		for _, cl := range Calls(fn) {
-			f := CalleeFunc(cl)
-			if f == nil || cl == enc {
-				continue
-			}
-			writes := false
-			switch f.Name() {
-			case "addKey", "addElementSeparator":
-				writes = true
-			default:
-				for _, bc := range encBufCalls(c, fn) {
-					if ssa.Instruction(bc.call) == cl && isMutatingBufMethod(bc.m) {
-						writes = true
-					}
-				}
-			}
-			if writes && !Dominates(enc, cl) {
-				early = append(early, f.Name())
-			}
-		}
-		// nothing is written unless the encoding succeeded
-		errRetOK := true
-		encD := Desc(enc.(ssa.Value)) + "#1 == nil"
-		nw := 0
-		for _, cl := range Calls(fn) {
-			f := CalleeFunc(cl)
-			if f == nil || cl == enc {
-				continue
-			}
-			isW := f.Name() == "addKey" || f.Name() == "addElementSeparator"
-			for _, bc := range encBufCalls(c, fn) {
-				if ssa.Instruction(bc.call) == cl && isMutatingBufMethod(bc.m) {
-					isW = true
-				}
-			}
-			if isW {
-				nw++
-				if !containsS(AtomStrings(Guards(cl)), encD) {
-					errRetOK = false
-				}
-			}
-		}
-		errRetOK = errRetOK && nw >= 2
-		c.Check(len(early) == 0 && errRetOK, "R10.3", fn.String(), "encodes-before-writing", enc.Pos(), "the reflected value is encoded before the key/separator is written and an encoding error returns with the line untouched (writes before encoding: %v)", early)
-	}
+	c10Reflected(c, "R10.3")
 
 	// ---------------- R10.4 ----------------
 	type loopT struct{ pkg, typ, m, inner string }
@@ -413,6 +265,10 @@ func c10IsPayload(v ssa.Value, depth int) bool {
 			r = x.X
 			continue
 		case *ssa.Extract:
+			if ta, ok := x.Tuple.(*ssa.TypeAssert); ok {
+				r = ta.X
+				continue
+			}
 			if nx, ok := x.Tuple.(*ssa.Next); ok {
 				if rg, ok := nx.Iter.(*ssa.Range); ok {
 					r = rg.X
@@ -610,4 +466,167 @@ func posStr(fn *ssa.Function, p token.Pos) string {
 	}
 	ps := fn.Prog.Fset.Position(p)
 	return itoa(ps.Line)
+}
+
+// c10Recover: every call zap makes of a user value's String()/Error()/Errors() on a field payload runs under a
+// deferred closure that itself calls recover() and converts the panic.
+func c10Recover(c *Ctx, rule string) {
+	// ---------------- R10.1 ----------------
+	n := 0
+	payloadFns := map[*ssa.Function]bool{}
+	c.EachRootFunc(func(fn *ssa.Function) {
+		if fn.Pkg == nil {
+			return
+		}
+		p := fn.Pkg.Pkg.Path()
+		if p != ZapPath && p != CorePath {
+			return
+		}
+		for _, cl := range Calls(fn) {
+			call, ok := cl.(*ssa.Call)
+			if !ok || !call.Call.IsInvoke() {
+				continue
+			}
+			m := call.Call.Method
+			full := m.FullName()
+			if full != "(fmt.Stringer).String" && full != "(error).Error" {
+				// type-parameter receivers constrained by fmt.Stringer; the error-group accessor of a user error
+				isGroup := m.Name() == "Errors" && strings.HasSuffix(full, "errorGroup).Errors")
+				if !(m.Name() == "String" && strings.Contains(full, "Stringer")) && !isGroup {
+					continue
+				}
+			}
+			recv := call.Call.Value
+			d := Desc(recv)
+			// payload classification: errors returned by marshalers (locals named err from a call) are a separate, listed class
+			// a field payload reaches zap through a parameter (the value itself, an element of a slice
+			// parameter/receiver, a type assertion of an interface{} parameter); errors zap received
+			// from marshalers/sinks are call results
+			isPayload := c10IsPayload(recv, 0)
+			if !isPayload {
+				if p == CorePath || p == ZapPath {
+					c.Triv(rule, FuncKey(fn), "listed/"+m.Name()+"("+d+")", call.Pos(), "%s() on %s: an error zap itself received from a marshaler/sink or built (not a user field payload) - listed, not required to be under recover", m.Name(), d)
+				}
+				continue
+			}
+			n++
+			payloadFns[fn] = true
+			// deferred closure that directly calls recover()
+			rec := false
+			AllInstrs(fn, func(i ssa.Instruction) {
+				df, ok := i.(*ssa.Defer)
+				if !ok {
+					return
+				}
+				mk, ok := df.Call.Value.(*ssa.MakeClosure)
+				if !ok {
+					return
+				}
+				for _, c2 := range Calls(mk.Fn.(*ssa.Function)) {
+					if CallBuiltin(c2) == "recover" {
+						rec = Dominates(df, call)
+					}
+				}
+			})
+			c.Check(rec, rule, FuncKey(fn), "recover/"+m.Name()+"("+d+")", call.Pos(), "the user's %s() runs after a defer whose closure calls recover() itself (recover in a helper called from the deferred function is one frame too deep and does nothing)", m.Name())
+		}
+	})
+	if n < 3 {
+		c.Bad(rule, "payload calls", "count", token.NoPos, "expected at least 3 String()/Error() calls on field payloads, found %d", n)
+	}
+	// the recover closures convert: nil pointer → "<nil>", otherwise retErr = PANIC=…
+	for _, fn := range c.RootFuncs() {
+		if !payloadFns[fn] {
+			continue
+		}
+		okNil, okErr := false, false
+		for _, f := range Region(fn) {
+			AllInstrs(f, func(i ssa.Instruction) {
+				switch x := i.(type) {
+				case *ssa.Call:
+					if x.Call.IsInvoke() && x.Call.Method.Name() == "AddString" && Desc(x.Call.Args[1]) == `"<nil>"` {
+						okNil = true
+					}
+					if f2 := CalleeFunc(x); f2 != nil && f2.FullName() == "fmt.Errorf" {
+						if s, ok := ConstString(x.Call.Args[0]); ok && strings.HasPrefix(s, "PANIC=") {
+							okErr = true
+						}
+					}
+				case *ssa.Store:
+					if Desc(x.Val) == `"<nil>"` {
+						okNil = true
+					}
+				}
+			})
+		}
+		c.Check(okNil && okErr, rule, fn.String(), "converts-panic", fn.Pos(), "the recovered panic becomes \"<nil>\" for a nil pointer receiver and a PANIC=… error otherwise (nil=%v err=%v)", okNil, okErr)
+	}
+
+}
+
+// c10Reflected: a reflected value is encoded BEFORE its key or separator is written, and an encoding error returns
+// before any write.
+func c10Reflected(c *Ctx, rule string) {
+	for _, m := range []string{"AddReflected", "AppendReflected"} {
+		fn := c.Method(CorePath, "jsonEncoder", m)
+		if !c.Anchor(rule, "zapcore.jsonEncoder."+m, fn != nil) {
+			continue
+		}
+		var enc ssa.Instruction
+		for _, cl := range Calls(fn) {
+			if f := CalleeFunc(cl); f != nil && f.Name() == "encodeReflected" {
+				enc = cl
+			}
+		}
+		if enc == nil {
+			c.Bad(rule, fn.String(), "encodes-first", fn.Pos(), "no encodeReflected call")
+			continue
+		}
+		var early []string
+		for _, cl := range Calls(fn) {
+			f := CalleeFunc(cl)
+			if f == nil || cl == enc {
+				continue
+			}
+			writes := false
+			switch f.Name() {
+			case "addKey", "addElementSeparator":
+				writes = true
+			default:
+				for _, bc := range encBufCalls(c, fn) {
+					if ssa.Instruction(bc.call) == cl && isMutatingBufMethod(bc.m) {
+						writes = true
+					}
+				}
+			}
+			if writes && !Dominates(enc, cl) {
+				early = append(early, f.Name())
+			}
+		}
+		// nothing is written unless the encoding succeeded
+		errRetOK := true
+		encD := Desc(enc.(ssa.Value)) + "#1 == nil"
+		nw := 0
+		for _, cl := range Calls(fn) {
+			f := CalleeFunc(cl)
+			if f == nil || cl == enc {
+				continue
+			}
+			isW := f.Name() == "addKey" || f.Name() == "addElementSeparator"
+			for _, bc := range encBufCalls(c, fn) {
+				if ssa.Instruction(bc.call) == cl && isMutatingBufMethod(bc.m) {
+					isW = true
+				}
+			}
+			if isW {
+				nw++
+				if !containsS(AtomStrings(Guards(cl)), encD) {
+					errRetOK = false
+				}
+			}
+		}
+		errRetOK = errRetOK && nw >= 2
+		c.Check(len(early) == 0 && errRetOK, rule, fn.String(), "encodes-before-writing", enc.Pos(), "the reflected value is encoded before the key/separator is written and an encoding error returns with the line untouched (writes before encoding: %v)", early)
+	}
+
 }
